@@ -134,7 +134,8 @@ CHECKS['C01'] = ('4/C01',
     '=> result empty, result never an error value; every string in every environment gets such a record; the lexer and parser fuel '
     'bounds are proved sufficient (no syntax error is a fuel artefact) and every modelled loop has a Lean termination proof. The real '
     'parse is judged directly on token soups, mutated formulas, arbitrary Unicode, long/deep inputs, EVERY registered function x '
-    'arity 0..4 x a 14-value pool (complete in the thorough tier, 6.6 M calls) and hostile host callbacks, each call under a step '
+    'arity 0..4 x a 14-value pool (complete in the thorough tier, 6.6 M calls), every registered function on numeric edges written as '
+    'literals (fractions between -1 and 1, tiny and huge magnitudes, table bounds, numeric text that overflows float()) and hostile host callbacks, each call under a step '
     'budget and a wall-clock guard in worker processes (a hang is reported as a violation with the formula).',
     'Trusted: Lean kernel; extract.py (error table); termination/boundedness of unmodelled builtins and of ply/re is covered only by '
     'the budgeted sweep (exploration inside the evidence); a listener raising SyntaxError triggers ply error recovery (record stays '
